@@ -64,16 +64,20 @@ AppendColumn(col, explicit) ==
     /\ nw' = nw + 1
     /\ Log([name |-> "AppendColumn", col |-> col, explicit |-> explicit, out |-> "ok"]) /\ UNCHANGED made
 
-\* overwrite the rows with the given (increasing) indices, 0-based
+\* overwrite the rows with the given distinct indices, 0-based: the i-th given row goes to row idx[i].
+\* An index list that is not increasing may be refused (the storage layer wants increasing selections) - but if it is
+\* accepted the rows have to land where they were addressed
+Increasing(idx) == \A i \in 1..(Len(idx) - 1) : idx[i] < idx[i + 1]
 WriteRows(idx) ==
     /\ made /\ CanStep /\ Len(idx) >= 1 /\ \A i \in 1..Len(idx) : idx[i] < NR
+    /\ \A i, j \in 1..Len(idx) : i # j => idx[i] # idx[j]
     /\ cells' = [r \in 1..NR |->
                     IF \E i \in 1..Len(idx) : idx[i] = r - 1
                       THEN LET i == CHOOSE j \in 1..Len(idx) : idx[j] = r - 1 IN
                            [c \in 1..NC |-> << nw + 1, (i - 1) * NC + (c - 1) >>]
                       ELSE cells[r]]
     /\ nw' = nw + 1
-    /\ Log([name |-> "WriteRows", idx |-> idx, out |-> "ok"]) /\ UNCHANGED << made, cols, units >>
+    /\ Log([name |-> "WriteRows", idx |-> idx, may_refuse |-> ~Increasing(idx), out |-> "ok"]) /\ UNCHANGED << made, cols, units >>
 
 WriteColumn(c, by) ==
     /\ made /\ CanStep /\ c \in 1..NC
@@ -105,6 +109,7 @@ BadKinds == { "appendcol_short", "appendcol_long", "appendcol_dupname", "writero
 CreateBadKinds == { "dup_colname", "no_names", "no_types" }
 
 RowIdxSets == { << i >> : i \in 0..(MaxRows - 1) } \cup { << i, j >> : i \in 0..(MaxRows - 1), j \in 0..(MaxRows - 1) }
+              \cup { << 2, 0, 1 >>, << 1, 2, 0 >>, << 0, 2, 1 >>, << 0, 1, 2 >> }
 \* a unit for every column, for none, and a mix (0 = no unit for that column)
 UnitSeqs == { [i \in 1..NC |-> 0], [i \in 1..NC |-> 1], [i \in 1..NC |-> i % 3] }
 
@@ -116,7 +121,7 @@ Next ==
     \/ \E k \in CreateBadKinds : CreateBad(k)
     \/ ("append" \in Ops /\ \E k \in { 1, 2 } : AppendRows(k))
     \/ ("append" \in Ops /\ \E col \in NewCols, e \in BOOLEAN : AppendColumn(col, e))
-    \/ ("write" \in Ops /\ \E idx \in RowIdxSets : (Len(idx) = 2 => idx[1] < idx[2]) /\ WriteRows(idx))
+    \/ ("write" \in Ops /\ \E idx \in RowIdxSets : WriteRows(idx))
     \/ ("write" \in Ops /\ \E c \in 1..MaxCols, by \in { "index", "name" } : WriteColumn(c, by))
     \/ ("write" \in Ops /\ \E r \in 1..MaxRows, c \in 1..MaxCols, by \in { "position", "name" } : WriteCell(r, c, by))
     \/ ("units" \in Ops /\ made /\ \E u \in UnitSeqs : SetUnits(u))
